@@ -6,16 +6,18 @@ Numbers are rationals and `tol` is a parameter.  No square root enters the model
 code compares against a length, the comparison is modelled in SQUARED form; every such rewrite is
 documented next to the definition (valid for `0 ≤ tol`, which the theorems assume).
 
-`segments_2d` is modelled as it is coded.  `segments_3d` is modelled WITH the two repairs proposed
-in fixes/C28-*.diff, because the property (agreement with exact arithmetic) fails for the code as
-it is (findings recorded in known_findings.d/C28.json):
+Both functions are modelled as they are coded NOW.  Two defects of `segments_3d` found by this
+property were repaired in /repo (fixes/C28-*.diff, recorded as `fixed:` in known_findings.json):
   (R1) the pair of coordinates of the 2×2 system is the first pair whose minor is not below `tol`
-       (the code picks the first pair in which one of the lines merely has an extent; its minor can
-       vanish for non-parallel lines, which are then reported as not intersecting);
-  (R2) collinear segments that touch in one point give ONE point (the code returns that point twice).
-`Dims.pick` / `touchAsPoint` below are the only places where the model differs from the code; the
-code's own rule is kept as `Dims.pickCode` (used by the driver op `seg3d_code` and by the
-`decide`-witness of the finding in Props.lean).
+       (before: the first pair in which one of the lines merely has an extent; its minor can vanish
+       for non-parallel lines, which were then reported as not intersecting);
+  (R2) colinear segments that touch in one point give ONE point (before: that point twice).
+`Dims.pick` / `touchAsPoint true` are the current code; `Dims.pickCode` / `touchAsPoint false` = the code
+before the repairs, kept only as `seg3dCode` for the `decide`-witnesses of the defects in Props.lean §F
+(and the driver op `seg3d_code`).
+
+The squared-form rewrites are not only documented here: Lemmas §9 proves each of them over ℝ with
+`Real.sqrt`, and Props.seg2d_eq_sqrt_form shows that `seg2d` equals the sqrt form of the code.
 
 Degenerate (zero-length) segments, as the code treats them (modelled, compared with the code,
 excluded from the specification theorems):
@@ -141,14 +143,15 @@ def Dims.k : Dims → Ax
 /-- `deltas_1[i]*deltas_2[j] - deltas_1[j]*deltas_2[i]` -/
 def minor (d1 d2 : P3) (m : Dims) : Rat := d1.get m.i * d2.get m.j - d1.get m.j * d2.get m.i
 
-/-- (R1, repaired rule) the first coordinate pair whose minor is not below `tol`; `[0,1]` if none. -/
+/-- (R1, current rule: the `for dims, other in …` loop) the first coordinate pair whose minor is not
+    below `tol`; `[0,1]` if none. -/
 def Dims.pick (tol : Rat) (d1 d2 : P3) : Dims :=
   if ¬ rabs (minor d1 d2 .xy) < tol then .xy
   else if ¬ rabs (minor d1 d2 .xz) < tol then .xz
   else if ¬ rabs (minor d1 d2 .yz) < tol then .yz
   else .xy
 
-/-- the rule of the code as it is: `mask_sum = mask_1 + mask_2` (logical or), first pair of
+/-- the rule of the code before R1: `mask_sum = mask_1 + mask_2` (logical or), first pair of
     coordinates in which some line has an extent, `[0,1]` if fewer than two such coordinates. -/
 def Dims.pickCode (tol : Rat) (d1 d2 : P3) : Dims :=
   let mx := decide (rabs d1.x > tol) || decide (rabs d2.x > tol)
@@ -195,7 +198,7 @@ def ratiosDiffer (tol : Rat) : List Rat → Bool
   | _ => false
 
 /-- (R2) the two middle points coincide: a single shared point.
-    `touch = false` reproduces the code as it is (always two columns). -/
+    `touch = false` reproduces the code before R2 (always two columns). -/
 def touchAsPoint (touch : Bool) (tol v0 v1 : Rat) : Bool := touch && decide (rabs (v0 - v1) < tol)
 
 /-- the end of the parallel branch: the segments lie on one line; "since everything is parallel, it
@@ -261,10 +264,10 @@ def seg3dWith (pick : Rat → P3 → P3 → Dims) (touch : Bool) (tol : Rat) (a 
   let m := pick tol d1 d2
   if rabs (minor d1 d2 m) < tol then par3d touch tol a b c d else cross3d tol m a b c d
 
-/-- `segments_3d(start_1 = a, end_1 = b, start_2 = c, end_2 = d, tol)` with repairs R1 and R2 -/
+/-- `segments_3d(start_1 = a, end_1 = b, start_2 = c, end_2 = d, tol)` as it is coded now (with R1, R2) -/
 def seg3d (tol : Rat) (a b c d : P3) : Res P3 := seg3dWith Dims.pick true tol a b c d
 
-/-- `segments_3d` as it is coded today (findings: misses crossings, doubles a touching point) -/
+/-- `segments_3d` as it was coded before R1, R2 (misses crossings, doubles a touching point) -/
 def seg3dCode (tol : Rat) (a b c d : P3) : Res P3 := seg3dWith Dims.pickCode false tol a b c d
 
 /-! ## Specification: exact intersection of two non-degenerate segments
